@@ -1,3 +1,4 @@
 CONSTANTS MaxReqs = 2
+Configs <- QuickConfigs
 SPECIFICATION MCSpec
 INVARIANTS TypeOK CursorSync NoOverread OncePerRequest ResponsesFIFO CleanReject StreamExact TracerAlternates PairsBracket NothingAfterClose FinalIndependent
